@@ -6,7 +6,7 @@ from htmltools import HTML, HTMLDependency, HTMLDocument, Tag, TagList
 from engine.api import conc, concrete, harness
 from oracles.util import TF
 
-N_KIND = 13
+N_KIND = 15
 
 
 class TFR(TF):
@@ -52,6 +52,12 @@ def slot(kind: int, i: int):
     if kind == 11:
         d = HTMLDependency("same", "1." + str(i))
         return TF(TagList(d, Tag("hr"))), [d, Tag("hr")]
+    if kind == 13:
+        d = HTMLDependency("only" + str(i), "3.0")
+        return TF(TagList(d)), [d]
+    if kind == 14:
+        blk = Tag("div", Tag("p", t), "x")
+        return TF(TagList(blk)), [blk]
     # a tag that holds tagifiable children itself (Tag.tagify recursion)
     return Tag("ul", TF(TagList(Tag("li", t), "mid")), Tag("li", TF("deep" + t), Tag("b", TF(TagList())))), \
         [Tag("ul", Tag("li", t), "mid", Tag("li", "deep" + t, Tag("b")))]
@@ -109,7 +115,7 @@ def _pre_splice(B, w, k0, k1, k2, k3):
          shard={"w": range(N_WRAP), "k0": range(N_KIND)},
          sel=["w: wrapper (TagList, block tag, inline inside block, HTMLDocument, HTMLDocument with a <body>)",
               "k0..k3: sibling slots: absent / text / block tag / tagifiable expanding to TagList of length 0, 1, 3 / Tag / str / HTML() / dependency / "
-              "expansion containing another expansion / dependency + tag / tag holding tagifiable children"],
+              "expansion containing another expansion / dependency + tag / tag holding tagifiable children / one-element TagList with a dependency or a multi-line block"],
          targets=["htmltools._core.TagList.tagify", "htmltools._core.Tag.tagify", "htmltools._core.TagList.render", "htmltools._core.Tag.render"],
          timeout={"quick": 200, "thorough": 1500},
          outside="more than 4 sibling slots; expansions other than the 13 listed kinds")
